@@ -697,9 +697,74 @@ func (in *Interp) symEq(t types.Type, x, y value) *Term {
 
 // ---------------------------------------------------------------- unary, conversions
 
+// symElem is the address of table[idx] for a symbolic idx into a table of concrete scalars;
+// it only ever feeds loads (checked from the SSA referrers), which become ite chains.
+type symElem struct {
+	arr []value
+	idx *Term // 64-bit, proven in range
+	k   types.BasicKind
+}
+
+func (in *Interp) symElemAddr(fr *frame, instr *ssa.IndexAddr, arr []value) *symElem {
+	sv, ok := fr.get(instr.Index).(*symv)
+	if !ok || len(arr) == 0 || len(arr) > in.cfg.TableIteMax {
+		return nil
+	}
+	refs := instr.Referrers()
+	if refs == nil {
+		return nil
+	}
+	for _, r := range *refs {
+		u, ok := r.(*ssa.UnOp)
+		if !ok || u.Op != token.MUL {
+			if _, isDbg := r.(*ssa.DebugRef); isDbg {
+				continue
+			}
+			return nil
+		}
+	}
+	k := kindOf(arr[0])
+	switch k {
+	case types.Invalid, types.Float32, types.Float64:
+		return nil
+	}
+	for _, e := range arr {
+		if kindOf(e) != k || isSym(e) {
+			return nil
+		}
+	}
+	w, signed := kindWidth(sv.k)
+	t := sv.t
+	if w < 64 {
+		if signed {
+			t = in.pool.SExt(t, 64)
+		} else {
+			t = in.pool.ZExt(t, 64)
+		}
+	}
+	inb := in.pool.Bin(opULt, t, in.pool.Const(uint64(len(arr)), 64))
+	if !in.decide(fr, inb) {
+		in.rtPanic(fmt.Sprintf("index out of range [symbolic] with length %d", len(arr)))
+	}
+	return &symElem{arr, t, k}
+}
+
+func (in *Interp) loadSymElem(se *symElem) value {
+	p := in.pool
+	if se.k == types.Bool {
+		t := in.tableIte(se.idx, len(se.arr), func(i int) uint64 { return bitsOf(se.arr[i]) }, 1)
+		return in.mkSym(p.Eq(t, p.Const(1, 1)), types.Bool)
+	}
+	w, _ := kindWidth(se.k)
+	return in.mkSym(in.tableIte(se.idx, len(se.arr), func(i int) uint64 { return bitsOf(se.arr[i]) }, w), se.k)
+}
+
 func (in *Interp) unop(fr *frame, instr *ssa.UnOp, x value) value {
 	switch instr.Op {
 	case token.MUL:
+		if se, ok := x.(*symElem); ok {
+			return in.loadSymElem(se)
+		}
 		p := x.(*value)
 		if p == nil {
 			in.rtPanic("invalid memory address or nil pointer dereference")
